@@ -63,6 +63,70 @@ def metamorphic(cases, obs):
     return bad
 
 
+def compound_path_family(rng, n):
+    """$PATH on property shapes with compound paths (inverse of an alternative / of a sequence, closures, nested): the results of a
+    sh:sparql constraint and of a SELECT validator that use $PATH are the solutions of the query with the path written out (fully
+    bracketed, by an independent printer) - one result per distinct solution"""
+    import pyshacl
+    stats, fails = {"compound_path_cases": 0, "compound_path_results": 0}, []
+    preds = [URIRef(x) for x in S.PREDS[:3]]
+    for j in range(n):
+        data, nodes, lits = S.gen_typed_data(rng, n_iri=rng.randint(3, 5), n_bn=0, n_lit=1, n_triples=rng.randint(6, 14))
+        iris = [x for x in nodes if isinstance(x, URIRef)]
+        pa_, pb_ = ("pred", str(rng.choice(preds))), ("pred", str(rng.choice(preds)))
+        path = rng.choice([("inv", ("alt", [pa_, pb_])), ("inv", ("seq", [pa_, pb_])), ("alt", [pa_, ("inv", pb_)]), ("seq", [("inv", pa_), pb_]), ("inv", ("star", pa_)),
+                           ("inv", ("alt", [pa_, ("seq", [pb_, pa_])])), ("opt", ("inv", ("alt", [pa_, pb_])))])
+        sg = rdflib.Graph()
+        SG.add_prefix_decl(sg)
+        sh_ = EX["CPS%d" % j]
+        sg.add((sh_, rdflib.RDF.type, SH.PropertyShape))
+        sg.add((sh_, SH.path, enc.path_to_rdf(sg, path)))
+        foci = rng.sample(iris, rng.randint(1, min(3, len(iris))))
+        for f_ in foci:
+            sg.add((sh_, SH.targetNode, f_))
+        kind = rng.choice(["sparql", "validator"])
+        q = "SELECT $this ?value WHERE { $this $PATH ?value . FILTER (isIRI(?value)) }"
+        if kind == "sparql":
+            c_ = BNode("cpc%d" % j)
+            sg.add((sh_, SH.sparql, c_))
+            sg.add((c_, SH.select, Literal(q)))
+            sg.add((c_, SH.prefixes, EX.prefixes))
+        else:
+            comp, par, val = EX["CPComp%d" % j], BNode("cpp%d" % j), BNode("cpv%d" % j)
+            sg.add((comp, rdflib.RDF.type, SH.ConstraintComponent))
+            sg.add((comp, SH.parameter, par))
+            sg.add((par, SH.path, EX["cparg%d" % j]))
+            sg.add((comp, SH.propertyValidator, val))
+            sg.add((val, rdflib.RDF.type, SH.SPARQLSelectValidator))
+            sg.add((val, SH.select, Literal(q)))
+            sg.add((val, SH.prefixes, EX.prefixes))
+            sg.add((sh_, EX["cparg%d" % j], Literal(1)))
+        want = set()
+        for f_ in foci:
+            for row in data.query(SG.PFX + q.replace("$PATH", SG.path_text(path)), initBindings={"this": f_}):
+                want.add((f_, row[1]))
+        o = S.run_validate(data, sg)
+        stats["compound_path_cases"] += 1
+        if o[0] != "ok":
+            fails.append({"what": "a %s with $PATH on a compound path failed: %r" % (kind, o[:3]), "shapes_ttl": sg.serialize(format="turtle"), "path": SG.path_text(path)})
+            continue
+        got = [(r[0], r[1]) for r in o[2]]
+        stats["compound_path_results"] += len(got)
+        if set(got) != want or len(got) != len(want):
+            fails.append({"what": "$PATH on a compound path: the %s reports other (focus, value) pairs than the query with the path written out" % kind, "path": SG.path_text(path),
+                          "shapes_ttl": sg.serialize(format="turtle"), "data_nt": sorted(" ".join(x.n3() for x in t) for t in data),
+                          "reported": sorted("%s %s" % (a.n3(), b.n3() if b is not None else None) for a, b in got), "expected": sorted("%s %s" % (a.n3(), b.n3()) for a, b in want)})
+    return stats, fails, []
+
+
+def both_extra(seed, tier):
+    a = MC.run(F.rng_for(seed, PROP + "/messages"), 600 if tier == "quick" else 8000)
+    b = compound_path_family(F.rng_for(seed, PROP + "/paths"), 30 if tier == "quick" else 400)
+    st = dict(a[0])
+    st.update(b[0])
+    return st, a[1] + b[1], a[2] + b[2]
+
+
 def main(tier, seed, replay=None):
     rng = F.rng_for(seed, PROP)
     cases = [gen_case(rng) for _ in range(300 if tier == "quick" else 5000)]
@@ -87,7 +151,7 @@ def main(tier, seed, replay=None):
         rule="case = 1-3 node/property shapes with sh:sparql constraints (8 SELECT templates with $this/$PATH/?value/?path/?failure/extra variables, message templates with {$var}/{?var}, sh:prefixes, deactivated) and SPARQL-based constraint components (ASK and SELECT validators with a parameter), optionally next to a core component; the solutions of every query for every candidate focus/value node are obtained by running the declared query directly through rdflib with the SHACL-SPARQL pre-bindings and handed to the model as data; %d further cases carry a query SHACL-SPARQL forbids (MINUS, VALUES, SERVICE, AS ?this, nested SELECT, in sh:sparql constraints and in ASK/SELECT validators of components, including re-binding the component's own parameter) and must end in a validation failure; message templates: both substitution sites on random templates (brace and sigil soup, unterminated and empty placeholders) and bindings (values with braces, backslashes, placeholder-like text) = the model's one-pass verbatim substitution" % len(screened),
         what="results differ from 'one result per distinct solution, each with the messages of its own bindings' (Props.C05)",
         metamorphic=meta,
-        extra_checks=lambda: MC.run(F.rng_for(seed, PROP + "/messages"), 600 if tier == "quick" else 8000),
+        extra_checks=lambda: both_extra(seed, tier),
         extra_assumptions=["the message-template model (Sparql/Message.v) is hand-written; it is tied to SPARQLQueryHelper.bind_messages and ConstraintComponent._format_sparql_based_result_message by running both on random templates and bindings (Python's re module is the implementation's engine)",
                            "SPARQL evaluation is rdflib's (oracle); the regex screens for forbidden syntax are not modelled (differential only)"],
     )
